@@ -311,6 +311,10 @@ class Env:
 FILTERS = {}  # name -> callable; filled by users of the interpreter (same objects are given to mako)
 
 
+class RuntimeException(Exception):
+    """named like mako.exceptions.RuntimeException: what capture() raises for a non-callable"""
+
+
 class Interp:
     def __init__(self, prog, ctx, buffer_filters=(), enable_loop=True, filters=None, hook=None):
         self.prog = prog
@@ -462,7 +466,7 @@ class Interp:
 
     def capture(self, fn, *a, **kw):
         if not callable(fn):
-            raise RuntimeError("capture() function expects a callable")
+            raise RuntimeException("capture() function expects a callable")
         self.push()
         try:
             fn(*a, **kw)
